@@ -636,3 +636,38 @@ def check(cx):
     from . import c19
     cx.include(c19, {"C19.1"}, "C05.11", "shared with C19.1: IN-lists, DISTINCT, GROUP BY and hash joins look values up by hash; equal values (Int 1 and "
                "Double 1.0) must hash equally or `d IN (1, 3)` misses rows that `d = 1 OR d = 3` returns", floor=8)
+
+    # ---- C05.12 a join is an equi-join only if every conjunct of its ON condition is a key equality -------------------------
+    r12 = cx.rule("C05.12", "FLOW: in JoinOp::is_equi_condition the AND arm answers true only after both sides were asked: on the path where the "
+                  "first recursive call answered true, the second call is made on every path to the return. (Hash and merge joins are "
+                  "built from the extracted key equalities with no residual condition, so a conjunction that counts as an equi-join although "
+                  "one side is not a key equality loses that side.)", floor=1)
+    fq = cx.guard(r12, "is_equi_condition", p.fn, "sql::planner::logical::JoinOp::is_equi_condition")
+    if fq:
+        sws = [x for x in enum_switches(p, fq) if x[1].endswith("BinaryOperator") and "And" in x[2]]
+        if not sws:
+            cx.bad(r12, "and-arm", fq.where(), "is_equi_condition has no arm for AND")
+        else:
+            bi, adt, m, oth, _ = sws[0]
+            reg = dominated(fq, m["And"])
+            rec = sorted([c for c in fq.calls() if c.callee == fq.id and c.bb in reg], key=lambda c: c.bb)
+            first = [c for c in rec if all(fq.dominates(c.bb, d.bb) for d in rec)]
+            good = len(rec) >= 2 and bool(first)
+            why = "fewer than two recursive calls in the AND arm"
+            if good:
+                c1 = first[0]
+                others = {c.bb for c in rec if c is not c1}
+                tb = fq.blocks[c1.term["to"]]["term"]
+                if tb["t"] == "switch" and op_local(tb["o"]) == c1.dst[0] and tb.get("ty") == "bool":
+                    true_arm = tb["otherwise"]
+                    rets = [x for x in range(len(fq.blocks)) if fq.blocks[x]["term"]["t"] == "ret"]
+                    leak = fq.reachable(true_arm, blocked=others) & set(rets)
+                    good = not leak
+                    why = "the first side answering true is enough"
+                else:
+                    # the result of the first call is combined without a branch (e.g. `a & b`): both calls are made
+                    good = all(fq.dominates(c1.bb, d) for d in others)
+                    why = "the second side is not always asked"
+            cx.verdict(good, r12, "and-arm:both-sides", fq.where(), "true only after both sides were asked",
+                       "is_equi_condition answers true for `a AND b` although %s: ON a.x = b.y AND a.z < b.w is planned as a hash/merge join on "
+                       "(x, y) and the second conjunct is never evaluated" % why)
